@@ -655,6 +655,7 @@ func runC18(e *Env) error {
 	if e.Replay == "" {
 		c18Planned(e, viol, &mu)
 		c18Window(e, viol, &mu)
+		c18Stored(e, viol, &mu)
 	}
 	e.Res.Note("atlas processes run: %d", cliRuns.Load())
 	return nil
